@@ -988,6 +988,8 @@ func (x *tr) skipped(s ast.Stmt) bool {
 	t := norm(src(s))
 	for _, p := range x.t.Skip {
 		if strings.HasPrefix(t, norm(strings.ReplaceAll(p, "RECV", x.recv))) {
+			covPat("Trans."+x.t.Lean, p)
+			covSkip("Trans."+x.t.Lean, s, "Skip") // FX14: recorded in Gen/TransCoverage.lean
 			return true
 		}
 	}
@@ -1243,6 +1245,7 @@ func (x *tr) stmts(list []ast.Stmt, en env, fc *fctx, k kont) string {
 		return fc.ret(en, nil, false)
 	}
 	if caps := x.captures(s); len(caps) > 0 {
+		covSkip("Trans."+x.t.Lean, s, "Capture (one field of the literal is read)")
 		out := ""
 		cur := en
 		for _, c := range caps {
@@ -2174,6 +2177,7 @@ def goCmpU64 (a b : UInt64) : Int := if a < b then -1 else if a = b then 0 else 
 func main() {
 	repo := flag.String("repo", "/repo", "atree source directory")
 	out := flag.String("out", "", "output directory (lean/AtreeModel/Gen)")
+	pin := flag.String("pin", "", "maintenance: also (re)write the reviewed coverage literals into this directory (lean/AtreeProofs/Props)")
 	flag.Parse()
 	if *out == "" {
 		fmt.Fprintln(os.Stderr, "gotrans: -out required")
@@ -2224,6 +2228,11 @@ func main() {
 	writeObjMaps(*out)
 	writeObjDescent(*out) // the object engine again (descent and top level of the maps): <out>/TransMapDescent.lean
 	writeObjElems(*out)   // the object engine again (element layer of the maps): <out>/TransMapElems.lean, TransMapElem.lean
+	// FX14: what the engines did NOT read: <out>/TransCoverage.lean (coverage.go)
+	cov := writeCoverage(*out)
+	if *pin != "" {
+		writePins(*pin, cov) // maintenance: re-pin the reviewed literals of lean/AtreeProofs/Props/TransCoverage*.lean
+	}
 	path := filepath.Join(*out, "Trans.lean")
 	content := b.String()
 	if old, err := os.ReadFile(path); err == nil && string(old) == content {
